@@ -19,6 +19,7 @@ Verdict(e) ==
                          ELSE IF e.res = WarpExpected(e) THEN {} ELSE {"WarpMovesVoxelsExactly"})
                         \cup (IF e.raised = 0 /\ e.second # "same" THEN {"WarpIndependentOfEarlierPayload"} ELSE {})
     [] e.op = "ctmeta" -> {c \in {"DestinationMetadata"} : e.origin # e.dorigin \/ e.dims # e.ddims \/ e.shape # e.dshape}
+                          \cup {c \in {"ResultKeepsTheImagesOwnMetadata"} : e.own_metadata_kept = 0}
 Judge(e) == LET f == Verdict(e) IN IF f = {} THEN TRUE ELSE PrintT(<<"BAD", e.tid, l, f>>)
 Next == /\ l <= Len(Lines)
         /\ Judge(Lines[l])
